@@ -469,6 +469,9 @@ package bkl
 //@   decreases (- 1002 depth) 1
 //@ func process2Encode(obj, mergeFrom, mergeFromDocs, ec, v, depth) (res, err)
 //@   decreases (- 1002 depth) 1
+//@   property C07
+//@   at call process2EncodeAny#1
+//@     assert (noMarker obj2)                                                                             [C07] [C14]
 //@ func process2Decode(obj, mergeFrom, mergeFromDocs, ec, v, depth) (res, err)
 //@   decreases (- 1002 depth) 5
 //@ func process2DecodeString(obj, mergeFrom, mergeFromDocs, ec, v, depth) (res, err)
@@ -603,6 +606,8 @@ package bkl
 //@   decreases (- 1002 depth) 0
 
 //@ func Parser.loadFile(p, path, child) (res, err)
+//@   property C18
+//@   effects read-content:os.Root.Open, read-content:io.ReadAll, probe
 //@   ensures (=> (not (isErr err)) (and (>= res allocTop) (not (= res 0))))
 //@   ensures (=> (not (isErr err)) (= (file.depth res) (ite (= child 0) 0 (+ (old (file.depth child)) 1))))
 //@   ensures (=> (not (isErr err)) (<= (file.depth res) 1000))
@@ -677,3 +682,14 @@ package bkl
 //@   loop 1
 //@     invariant (= (allStr rest) (allStr (ls l)))
 //@     invariant (= (sapp ret (toSL rest)) (toSL (ls l)))
+
+// ------------------------------------------------------------------------------------------------- effects (C18)
+// The only places where the library opens a root handle or reads file content:
+
+//@ func New() (res, err)
+//@   property C18
+//@   effects open-root:os.OpenRoot, env
+//@ func Parser.SetRoot(p, path) (err)
+//@   property C18
+//@   effects open-root:os.Root.OpenRoot, probe
+//@   modifies Parser.root, Parser.rootPath
